@@ -361,6 +361,14 @@ func cli(c *run.Ctx, cs Case, w *pipe.Workload, truth []pipe.LineTruth) {
 		mode = "color"
 	}
 	ordered := r.Intn(2) == 0
+	if cs.Index%3 != 0 {
+		// input names a file system allows and an output routine may trip over: printf verbs, blanks, colour-like text, non-ASCII
+		odd := []string{"100%%.log", "cpu%util.log", "access%20log.txt", "%s", "%d%v%!", "a b.log", "é-日志.log", "tab\there", "x:1: y", "[0m.log", "-dash.log"}
+		for i := range w.Inputs {
+			w.Inputs[i].Name = fmt.Sprintf("%d_%s", i, odd[(cs.Index+i)%len(odd)])
+		}
+		c.Count("cli_runs_with_odd_input_names", 1)
+	}
 	dir := filepath.Join(c.WorkDir, "cli")
 	os.RemoveAll(dir)
 	os.MkdirAll(dir, 0o755)
